@@ -89,4 +89,70 @@ theorem msse_univariate_eq_spec {sqrt : Bool} (h0 : 0 < sp) (h1 : sp < c.length)
   rfl
 end
 
+
+
+theorem sqErrs'_eq_spec (t p : Col) : sqErrs' t p = Spec.Metrics.sqErr t p := by
+  unfold sqErrs' Spec.Metrics.sqErr
+  apply zipWith_congr_mem
+  intro a _ b _
+  unfold sqr; ring
+
+section
+variable {eps : Rat} {hw : Option (List Rat)} {out : Out} {t p b c : Col} {ix : Option (Int × Int)} {sp : Int}
+
+/-- univariate MdASE with `raw_values`: (weighted) median of |errors| over the plain median of the naive |errors| -/
+theorem mdase_univariate_eq_spec (h0 : 0 < sp) (h1 : sp < c.length)
+    (hg : eps ≤ median ((Spec.Metrics.naiveErr sp.toNat c).map (|·|)))
+    (h : medianAbsoluteScaledError eps [t] [p] (.arr [c]) ix sp hw .raw = .ok out) :
+    out = .raw 1 [medianW hw (Spec.Metrics.absErr t p) / median ((Spec.Metrics.naiveErr sp.toNat c).map (|·|))] := by
+  obtain ⟨m, naive, pred, hm, hn, hp, rfl⟩ := scaled_iff.mp h
+  have : m = [c] := (scaledPrologue_arr_iff.mp hm).2.2.2.2
+  subst this
+  simp only [List.map_cons, List.map_nil] at hn
+  rw [direct_single_raw isDirect_mdae hn, direct_single_raw isDirect_mdae hp]
+  simp only [ratioOut, ratioVals, Out.perCol, rootDeg, List.zipWith_cons_cons, List.zipWith_nil_right,
+    Bool.false_eq_true, if_false, medianW]
+  rw [naive_absErrs_eq_spec c sp h0 h1, absErrs_eq_spec, maxR_of_le hg]
+
+/-- univariate MdSSE / root MdSSE with `raw_values` -/
+theorem mdsse_univariate_eq_spec {sqrt : Bool} (h0 : 0 < sp) (h1 : sp < c.length)
+    (hg : eps ≤ median ((Spec.Metrics.naiveErr sp.toNat c).map (· ^ 2)))
+    (h : medianSquaredScaledError eps [t] [p] (.arr [c]) ix sp hw .raw sqrt = .ok out) :
+    out = .raw (rootDeg sqrt 1)
+      [medianW hw (Spec.Metrics.sqErr t p) / median ((Spec.Metrics.naiveErr sp.toNat c).map (· ^ 2))] := by
+  obtain ⟨m, naive, pred, hm, hn, hp, rfl⟩ := scaled_iff.mp h
+  have : m = [c] := (scaledPrologue_arr_iff.mp hm).2.2.2.2
+  subst this
+  simp only [List.map_cons, List.map_nil] at hn
+  rw [direct_single_raw (isDirect_mdse false) hn, direct_single_raw (isDirect_mdse false) hp]
+  simp only [ratioOut, ratioVals, Out.perCol, List.zipWith_cons_cons, List.zipWith_nil_right, medianW]
+  have e : sqErrs' (naiveTrue sp c) (naivePred sp c) = sqErrs (naiveTrue sp c) (naivePred sp c) := by
+    rw [sqErrs'_eq_spec, sqErrs_eq_spec]
+  rw [e, naive_sqErrs_eq_spec c sp h0 h1, sqErrs'_eq_spec, maxR_of_le hg]
+
+/-- univariate relative loss (`raw_values`) with MAE resp. MSE as the loss: loss of the forecast over loss of the
+benchmark, while the benchmark's loss is at least eps -/
+theorem relloss_mae_univariate_eq_spec (hg : eps ≤ Spec.Metrics.MAE hw t b)
+    (h : relativeLoss eps [t] [p] [b] .mae hw .raw = .ok out) :
+    out = .raw 1 [Spec.Metrics.MAE hw t p / Spec.Metrics.MAE hw t b] := by
+  obtain ⟨_, _, lp, lb, h1, h2, rfl⟩ := relativeLoss_iff.mp h
+  simp only [Base.call] at h1 h2
+  rw [direct_single_raw isDirect_mae h1, direct_single_raw isDirect_mae h2]
+  simp only [ratioOut, ratioVals, Out.perCol, List.zipWith_cons_cons, List.zipWith_nil_right]
+  rw [npAverage_eq_wmean, npAverage_eq_wmean, absErrs_eq_spec, absErrs_eq_spec]
+  have : Spec.Metrics.wmean hw (Spec.Metrics.absErr t b) = Spec.Metrics.MAE hw t b := rfl
+  rw [this, maxR_of_le hg]; rfl
+
+theorem relloss_mse_univariate_eq_spec (hg : eps ≤ Spec.Metrics.MSE hw t b)
+    (h : relativeLoss eps [t] [p] [b] .mse hw .raw = .ok out) :
+    out = .raw 1 [Spec.Metrics.MSE hw t p / Spec.Metrics.MSE hw t b] := by
+  obtain ⟨_, _, lp, lb, h1, h2, rfl⟩ := relativeLoss_iff.mp h
+  simp only [Base.call] at h1 h2
+  rw [direct_single_raw (isDirect_mse false) h1, direct_single_raw (isDirect_mse false) h2]
+  simp only [ratioOut, ratioVals, Out.perCol, List.zipWith_cons_cons, List.zipWith_nil_right]
+  rw [npAverage_eq_wmean, npAverage_eq_wmean, sqErrs_eq_spec, sqErrs_eq_spec]
+  have : Spec.Metrics.wmean hw (Spec.Metrics.sqErr t b) = Spec.Metrics.MSE hw t b := rfl
+  rw [this, maxR_of_le hg]; rfl
+end
+
 end SkVerif.Lem.Metrics
